@@ -744,6 +744,78 @@ def wide_tie(ctx, mbin_files):
                    replay=replay, found_input=True)
 
 
+
+# ----------------------------------------------------------------------------------------------
+# width tie (static): the model computes every integer PRODUCT that becomes an array offset in a_size (sz_mul, 64 bit)
+# and the theorems prove that sufficient.  Whether the C really computes them in 64 bit can be observed by running
+# only for diag1/diag2 (wide tie); for T1, T2, diag and the products it would take >= 32 GiB of touched memory.  So this
+# part of the correspondence is checked on the C's typed syntax tree (clang): inside the a_real_* functions of linalg.c
+# no integer multiplication / left shift is computed in a type narrower than 64 bit, and no 64-bit integer is cast to a
+# narrower one.  (A finding here has a concrete failing input only where the wide tie can produce one.)
+_INT_WIDTH = {"unsigned long": 64, "long": 64, "unsigned long long": 64, "long long": 64, "unsigned int": 32, "int": 32,
+              "unsigned short": 16, "short": 16, "unsigned char": 8, "signed char": 8, "char": 8, "_Bool": 1}
+MODEL_SZ_MUL_SITES = {"a_real_T1": 2, "a_real_T2": 2, "a_real_diag": 1, "a_real_diag1": 1, "a_real_diag2": 1,
+                      "a_real_mulmm": 1, "a_real_mulTm": 1, "a_real_mulmT": 2, "a_real_mulTT": 2}
+
+
+def width_tie(ctx):
+    import shutil
+    clang = shutil.which("clang")
+    if not clang:
+        ctx.cov["width_tie"] = "skipped: clang not found"
+        return
+    cfg = ctx.cfg_header(1, 8)
+    rc, out, err = vlib.sh2([clang, "-std=c11", "-w", "-I", str(vlib.REPO / "include"), "-DA_EXPORTS", '-DA_HAVE_H="%s"' % cfg,
+                             "-fsyntax-only", "-Xclang", "-ast-dump=json", str(vlib.REPO / "src" / "linalg.c")], timeout=120)
+    try:
+        tu = json.loads(out)
+    except ValueError:
+        ctx.cov["width_tie"] = "skipped: clang produced no syntax tree (rc=%d)" % rc
+        return
+
+    def width(t):
+        q = (t.get("desugaredQualType") or t.get("qualType") or "").replace("const ", "").replace("volatile ", "").strip()
+        return _INT_WIDTH.get(q)
+
+    def line_of(n, cur):
+        b = n.get("range", {}).get("begin", {})
+        b = b.get("expansionLoc", b)
+        return b.get("line", cur)
+
+    bad, sites = [], {}
+
+    def walk(n, fname, cur):
+        cur = line_of(n, cur)
+        k = n.get("kind")
+        if k in ("BinaryOperator", "CompoundAssignOperator") and n.get("opcode") in ("*", "*=", "<<", "<<="):
+            w = width(n.get("computeResultType", n["type"]) if k == "CompoundAssignOperator" else n["type"])
+            if w is not None:
+                sites[fname] = sites.get(fname, 0) + 1
+                if w < 64:
+                    bad.append("%s (src/linalg.c line ~%s): integer '%s' computed in a %d-bit type" % (fname, cur, n.get("opcode"), w))
+        if n.get("castKind") == "IntegralCast" and n.get("inner"):
+            ws, wd = width(n["inner"][0].get("type", {})), width(n.get("type", {}))
+            if ws == 64 and wd is not None and wd < 64:
+                bad.append("%s (src/linalg.c line ~%s): 64-bit integer narrowed to %d bit" % (fname, cur, wd))
+        for c in n.get("inner") or []:
+            if isinstance(c, dict):
+                cur = walk(c, fname, cur)
+        return cur
+
+    nfun = 0
+    for fn in tu.get("inner", []):
+        if fn.get("kind") == "FunctionDecl" and fn.get("name", "").startswith("a_real_") and \
+                any(c.get("kind") == "CompoundStmt" for c in fn.get("inner", [])):
+            nfun += 1
+            walk(fn, fn["name"], line_of(fn, None))
+    ctx.cov["width_tie"] = {"functions_scanned": nfun, "integer_products_in_C": sites, "sz_mul_sites_in_model": MODEL_SZ_MUL_SITES,
+                            "narrow_products_or_narrowing_casts": bad,
+                            "rule": "clang syntax tree of $VERIF_REPO/src/linalg.c: every integer * / << inside a_real_* has a 64-bit type, "
+                                    "no 64->narrower integer cast (the model's sz_mul/sz_add are 64 bit)"}
+    for b in bad[:4]:
+        ctx.tie_broken("width tie: " + b + "; the model (and its no-wrap theorems) compute this offset in a_size (64 bit)")
+
+
 # ----------------------------------------------------------------------------------------------
 def build(ctx):
     cbin = ctx.cc("drv", [H / "drv.c"], repo_srcs=["linalg.c"], mode="asan")
@@ -885,7 +957,8 @@ def run(ctx):
     dis = set(disagree)
     for i, why in sorted(fails, key=lambda f: (f[0] not in dis, f[0])):
         report_failure(ctx, cbin, cases[i], c_lines[i], why, m_res[i][0])
-    # wide run (diag1/diag2 beyond 2^32 cells)
+    # static width tie, then the wide run (diag1/diag2 beyond 2^32 cells)
+    width_tie(ctx)
     try:
         wide_tie(ctx, ctx.__dict__["_c09_ml"])
     except vlib.CheckError as e:
